@@ -1453,7 +1453,7 @@ class UserSessionManager(Service, discriminator="user-session-manager"):
 
         if not local and remote_session_id:
             self.parent.terminal._disconnect(remote_session_id)
-            session = self.remote_sessions.pop(remote_session_id)
+            session = self.remote_sessions.pop(remote_session_id, None)
         if session:
             self.historic_sessions.append(session)
             self.sys_log.info(f"{self.name}: User {session.user.username} logged out")
